@@ -1299,6 +1299,26 @@ func c20CheckSpec(c *Ctx, d *c20Doc, obs c20Obs, input map[string]interface{}, l
 		spec = c20ExpectedG(d, labels)
 	default:
 		c.Count("oracle-S1-judged-exact-dates")
+		// the specification on general dates, read on exact days, is the specification on exact days
+		// wherever both decide
+		g := c20ExpectedG(d, labels)
+		var two []string
+		for k, w := range spec.Want {
+			if !spec.Unclear[k] && !g.Unclear[k] && g.Want[k] != w {
+				two = append(two, fmt.Sprintf("%s: %d by the exact-day specification, %d by the general one", k, w, g.Want[k]))
+			}
+		}
+		for k, w := range g.Want {
+			if !spec.Unclear[k] && !g.Unclear[k] && spec.Want[k] != w {
+				two = append(two, fmt.Sprintf("%s: %d by the exact-day specification, %d by the general one", k, spec.Want[k], w))
+			}
+		}
+		if len(two) > 0 {
+			sort.Strings(two)
+			c.Oracle("", "the two specifications (exact days / general dates) disagree on a document of exact days", input, strings.Join(two, "; "), "the same multiset")
+		} else {
+			c.Count("oracle-S1-two-specifications-agree")
+		}
 	}
 	var diffs, knownDiffs []string
 	seenKinds := map[string]bool{}
